@@ -204,6 +204,8 @@ pub struct Cpu {
     /// set by harness code while it edits `trace` / `irq_pending` itself: the handler must not
     /// touch them at the same time (delivery is postponed by a few boundaries, which is legal)
     pub hold_irqs: bool,
+    /// simulated interrupt service routine: runs (in the handler context) at every delivery
+    pub isr_hook: Option<fn(u8)>,
 }
 
 impl Default for Cpu {
@@ -241,6 +243,7 @@ impl Default for Cpu {
             delivered: Vec::new(),
             hung: false,
             hold_irqs: false,
+            isr_hook: None,
         }
     }
 }
@@ -519,6 +522,9 @@ impl Cpu {
         for (_, v) in due {
             self.trace.push(Ev::Deliver { vector: v });
             self.delivered.push((now, v));
+            if let Some(isr) = self.isr_hook {
+                isr(v);
+            }
         }
     }
 
